@@ -8,7 +8,7 @@
 (* the small grid and for every position, that each template unrolls to    *)
 (* exactly the element the declarative definition gives (TemplatesAgree).  *)
 (***************************************************************************)
-EXTENDS Emit
+EXTENDS Emit, Big
 
 Fam == EnvOr("QV_FAM", "c03")
 
